@@ -15,7 +15,7 @@ CHECKS = {
  "C01": dict(
    category="exploration",
    technique="bounded exhaustive enumeration of the expression grammar x use contexts on the real CodeBuilder (canonical front-end op sequence), oracle = go/parser+go/types on the files the package writes",
-   text="Both configurations: after the default configuration, every single-operator expression over the 78-atom alphabet (uses `_ = e`, `x := e`) and every atom in every use context is built again in the XGo-builtin configuration (untyped big-number kinds of internal/builtin configured; thorough adds the single-operator x all-uses stage), same oracle. Every single-operator expression over a 78-atom alphabet, every atom/single-operator expression over an 18-atom alphabet in ~100 use contexts, and depth-2 expressions over a reduced alphabet are built into fresh packages; whenever the builder reports no error the written files must parse and type-check. 1.8M executions (quick). Complete within the stated alphabets/depth. Known accepted-but-ill-typed classes are pinned one by one (class = root construct | use | normalised go/types message) with their input counts in known/C01.<tier>.tsv; any other class or a larger count is a VIOLATION.",
+   text="Both configurations: after the default configuration, every single-operator expression over the 78-atom alphabet (uses `_ = e`, `x := e`) and every atom in every use context is built again in the XGo-builtin configuration (untyped big-number kinds of internal/builtin configured), same oracle. Every single-operator expression over a 78-atom alphabet, every atom/single-operator expression over an 18-atom alphabet in ~100 use contexts, and depth-2 expressions over a reduced alphabet are built into fresh packages; whenever the builder reports no error the written files must parse and type-check. 1.8M executions (quick). Complete within the stated alphabets/depth. Known accepted-but-ill-typed classes are pinned one by one (class = root construct | use | normalised go/types message) with their input counts in known/C01.<tier>.tsv; any other class or a larger count is a VIOLATION.",
    note="Trusted: go/types 1.23.5 as the specification; the fixture env package; the driver's transcription of the canonical operation sequences; the shared-builtin accelerator (self-checked against the real InitBuiltin path on a fixed slice of every run).",
    design="§4 C01"),
  "C04": dict(
@@ -33,7 +33,7 @@ CHECKS = {
  "C19": dict(
    category="model_checking",
    technique="explicit-state exploration of all Set/Delete/Iterate-with-deletion sequences up to a length bound on the real typeutil.Map with hash-colliding keys, against a reference association list; plus all-pairs Identical=>Hash over a 5.7k-type universe",
-   text="All operation sequences (quick: length<=4 over 7 keys and length<=5 over 5 keys; thorough: <=5 over 7 and <=6 over 4) where the keys are 3 identity classes that collide under the real hash (two distinct objects each) plus a non-colliding key; after every step At/Len/Keys/Iterate/KeysString are compared with a reference association list under types.Identical, including deletion during iteration. All ordered pairs of a 5.7k-type universe (duplicated objects, permuted interfaces/unions, renamed type parameters, separate instantiations): Identical => equal Hash, no panic.",
+   text="All operation sequences (quick: length<=4 over 7 keys and length<=5 over 5 keys; thorough: <=5 over 7 and <=6 over 4) where the keys are 3 identity classes that collide under the real hash (two distinct objects each) plus a non-colliding key; after every step At/Len/Keys/Iterate/KeysString are compared with a reference association list under types.Identical, including deletion during iteration. All ordered pairs of a 9.6k-type universe (thorough 26k; duplicated objects, permuted interfaces/unions, renamed type parameters incl. every generated generic signature of 1..3 type parameters whose constraints are plain or mention another/the same type parameter in 8 forms, each type-checked under two naming schemes; separate instantiations): Identical => equal Hash, no panic.",
    note="Trusted: types.Identical; the reference list; pointer-valued hashes of named types make only structural collisions reproducible, so colliding keys are chosen among unnamed types.",
    design="§4 C19"),
  "C12": dict(
@@ -87,7 +87,7 @@ CHECKS = {
  "C09": dict(
    category="model_checking",
    technique="explicit-state exploration of all import/reference/declare/discard/force/switch-file/write histories up to a length bound on the real package, against a reference model of per-file reference sets; oracle = go/types name resolution on the emitted files",
-   text="All histories of length <=4 over a 19-operation alphabet (quick; 34 operations thorough) on a two-file package: 131k histories. After each history every file is written twice; import specs must equal referenced ∪ forced, local names must be unique and differ from package-level identifiers, every planted reference must resolve (Info.Uses) to the intended path, the package must type-check, the second write must be byte-identical. Write is itself an operation, so name fixing and dirty-flag handling are explored in every position.",
+   text="All histories of length <=5 over a 19-operation alphabet on a two-file package (2.39M histories, 10.4k distinct model states, 11.8M replayed transitions); thorough adds all histories of length <=4 over the 34-operation alphabet. After each history every file is written twice; import specs must equal referenced ∪ forced, local names must be unique and differ from package-level identifiers, every planted reference must resolve (Info.Uses) to the intended path, the package must type-check, the second write must be byte-identical. Write is itself an operation, so name fixing and dirty-flag handling are explored in every position.",
    note="Trusted: go/types 1.23.5; the reference model of the history; histories the builder rejects (redeclarations) are pruned.",
    design="§4 C09"),
  "C15": dict(
